@@ -465,20 +465,24 @@ fn run(ctx: &mut Ctx) {
         }
     }
     // ---------------- (d) framebuffer type bytes
-    ctx.bound("framebuffer_type", "all 256 framebuffer type bytes through framebuffer_tag(): 0..=2 decode to the matching variant, every other byte b gives Some(Err(e)) with e carrying b");
+    ctx.bound("framebuffer_type", "all 256 framebuffer type bytes on three realistic base images (linear RGB 1024x768x32 at 0xFD000000, VGA text 80x25 at 0xB8000, VGA 320x200x8 at 0xA0000) through framebuffer_tag(): 0..=2 decode to the matching variant, every other byte b gives Some(Err(e)) with e carrying b");
+    // base images: a linear RGB mode, the VGA text console, a VGA 256-colour mode (addresses, pitches and depths as
+    // real hardware reports them)
+    for (base_i, (addr, pitch, w, h, bpp)) in [(0xFD00_0000u64, 4096u32, 1024u32, 768u32, 32u8), (0xB8000, 160, 80, 25, 16), (0xA0000, 320, 320, 200, 8)].into_iter().enumerate() {
     for b in 0..=255u8 {
-        let mut t = bi::enc_framebuffer(0xFD00_0000, 4096, 1024, 768, 32, b, &[1, 0, 0x21, 0x22, 0x23, 8]);
+        let mut t = bi::enc_framebuffer(addr, pitch, w, h, bpp, b, &[1, 0, 0x21, 0x22, 0x23, 8]);
         if b == 0 {
             t.truncate(32 + 5);
             wr32(&mut t, 4, 37);
         }
         let region = bi::region(&[t, bi::end_tag()], &bi::marker_pad);
-        let describe = || J::obj().set("part", "framebuffer_type").set("type_byte", b).set("region", J::hex(&region));
+        let describe = || J::obj().set("part", "framebuffer_type").set("base_image", base_i).set("type_byte", b).set("region", J::hex(&region));
         ctx.leaf(describe, |ctx| {
             ctx.state(hash::hash_bytes(&region));
             ctx.nontrivial();
             check_getter(ctx, &arena, &region, bi::FRAMEBUFFER, Some(8), if b <= 2 { "framebuffer_type/known" } else { "framebuffer_type/unknown" });
         });
+    }
     }
     // ---------------- (d2) two framebuffer tags, one of them with an arbitrary type byte
     ctx.bound("framebuffer_type_pairs", "all 256 type bytes on the first / on the second of two framebuffer tags (the other one RGB): the getter reports the first tag in walk order, as an error carrying its byte when that byte is unknown");
